@@ -186,6 +186,18 @@ def run(tier, seed):
         ok_self = core.tv_once("Trace_TransportRead", _write(wd, "self.ndjson", st[0]), "/dev/null", wd) is None
         if ok_self:
             tested = selftest.run("Trace_TransportRead", st[0], "/dev/null", wd, corruptions())
+            # X.224 layer: after a frame that is not a data TPDU has been refused, the data TPDU behind it must come out
+            xs = [lines[s:e] for (s, e) in runs if str(json.loads(lines[s]).get("run", "")).startswith("x2-")]
+            def x224_refusal_sticks(evs):
+                reads = [i for i, e in enumerate(evs) if e["ev"] == "read"]
+                if len(reads) < 3 or evs[reads[1]]["res"] != "err" or evs[reads[2]]["res"] != "ok": return None
+                evs[reads[2]].update({"res": "err", "ek": "InvalidConst", "kind": "none", "payload": []}); return evs
+            def x224_refusal_overconsumes(evs):
+                reads = [i for i, e in enumerate(evs) if e["ev"] == "read"]
+                if len(reads) < 2 or evs[reads[1]]["res"] != "err": return None
+                evs[reads[1]]["consumed"] += 1; return evs[:reads[1] + 1]
+            if xs and core.tv_once("Trace_TransportRead", _write(wd, "selfx.ndjson", xs[0]), "/dev/null", wd) is None:
+                tested += selftest.run("Trace_TransportRead", xs[0], "/dev/null", wd, [("x224_refusal_sticks", x224_refusal_sticks), ("x224_refusal_overconsumes", x224_refusal_overconsumes)])
         # full-domain tables
         rt, wt = os.path.join(wd, "rt.ndjson"), os.path.join(wd, "wt.ndjson")
         cfg = os.path.join(wd, "TransportTables.cfg")
